@@ -355,7 +355,8 @@ impl PB<'_> {
         // environment reference of a matching kind, or a quoted constant
         let matching: Vec<usize> = self.env_kinds.iter().enumerate().filter(|(_, k)| **k == kind || kind == Kind::Any || kind == Kind::Tree).map(|(i, _)| i).collect();
         if !matching.is_empty() && self.rng.chance(2, 5) {
-            let i = *self.rng.pick(&matching);
+            // in long environments prefer the far end (long paths)
+            let i = if matching.len() > 8 && self.rng.bool() { matching[matching.len() - 1 - self.rng.usize(matching.len() / 2)] } else { *self.rng.pick(&matching) };
             return self.env_path(i);
         }
         if self.rng.chance(1, 40) {
@@ -800,7 +801,7 @@ impl PB<'_> {
             self.q(a)
         };
         let cat = self.op1(14, &[big1, big2]);
-        match self.rng.below(8) {
+        match self.rng.below(9) {
             0 => self.op1(13, &[cat]),             // strlen: small inline result
             1 => self.op1(11, &[cat]),             // sha256: 32-byte new atom (clone path)
             2 => {
@@ -857,6 +858,17 @@ impl PB<'_> {
                 let qnil = self.q(nil);
                 let env = self.op1(4, &[cat, qnil]);
                 self.op1(2, &[qb, env])
+            }
+            8 => {
+                // garbage made of pairs only: (l (c 1 (c 1 ... 130..260 deep))) allocates no atom at all
+                let depth = 130 + self.rng.usize(130);
+                let one = self.atom(&[1]);
+                let nil = self.atom(&[]);
+                let mut acc = self.q(nil);
+                for _ in 0..depth {
+                    acc = self.op1(4, &[one, acc]);
+                }
+                self.op1(7, &[acc])
             }
             6 => {
                 // (= (concat ..) (concat ..)) : result nil / one
@@ -934,8 +946,12 @@ impl PB<'_> {
 
 pub fn gen_program(rng: &mut Rng, cfg: &ProgCfg) -> GenProg {
     // environment: a list of typed values
-    let nenv = rng.usize(5);
-    let env_kinds: Vec<Kind> = (0..nenv).map(|_| *rng.pick(&[Kind::Int, Kind::Int, Kind::Bytes, Kind::Bytes, Kind::Bool, Kind::List, Kind::G1, Kind::Bytes32])).collect();
+    // mostly short environments; 1/6 long lists, so that element references need paths of up to
+    // ~45 bits (crossing the 8/16/24/32-bit boundaries of the path encoding)
+    let nenv = if rng.chance(1, 6) { 8 + rng.usize(40) } else { rng.usize(5) };
+    let env_kinds: Vec<Kind> = (0..nenv)
+        .map(|i| if i >= 6 { *rng.pick(&[Kind::Int, Kind::Int, Kind::Bool, Kind::Bytes]) } else { *rng.pick(&[Kind::Int, Kind::Int, Kind::Bytes, Kind::Bytes, Kind::Bool, Kind::List, Kind::G1, Kind::Bytes32]) })
+        .collect();
     let mut pb = PB {
         t: Sx {
             nodes: Vec::new(),
@@ -1015,6 +1031,9 @@ pub struct AllocCfg {
     pub heap_limit: Option<u64>,
     pub ghost_atoms: u64,
     pub ghost_pairs: u64,
+    /// unrelated heap atoms allocated before the program is built (an atom-heavy host allocator)
+    #[serde(default)]
+    pub junk_atoms: u32,
 }
 impl AllocCfg {
     pub fn unlimited() -> AllocCfg {
@@ -1022,6 +1041,7 @@ impl AllocCfg {
             heap_limit: None,
             ghost_atoms: 0,
             ghost_pairs: 0,
+            junk_atoms: 0,
         }
     }
     pub fn build(&self) -> Option<Allocator> {
@@ -1034,6 +1054,9 @@ impl AllocCfg {
         }
         if self.ghost_pairs > 0 {
             a.add_ghost_pair(self.ghost_pairs as usize).ok()?;
+        }
+        for i in 0..self.junk_atoms {
+            a.new_atom(&[0xEE, 0x10, (i >> 16) as u8, (i >> 8) as u8, i as u8, 0x01]).ok()?;
         }
         Some(a)
     }
